@@ -17,7 +17,7 @@ import shutil
 import typing as T
 
 from harness import refmeson as R
-from harness.core import Ctx, Evidence, Failure, HarnessError, campaign, pmap, shard_seeds, REPO
+from harness.core import Ctx, Evidence, Failure, HarnessError, pmap, shard_seeds, REPO
 
 LEVEL = 'exploration'
 RULE = ('typed Hypothesis grammar over a JSON AST of the documented core language (literals in every spelling, all '
@@ -131,8 +131,8 @@ def with_finals(prog: dict, o: R.Outcome) -> dict:
 # observation of the real tool
 
 class Obs:
-    def __init__(self, rc: int, out: str, err: str, escaped: str = ''):
-        self.rc, self.out, self.err, self.escaped = rc, out, err, escaped
+    def __init__(self, rc: int, out: str, err: str, escaped: str = '', hang: bool = False):
+        self.rc, self.out, self.err, self.escaped, self.hang = rc, out, err, escaped, hang
 
     @property
     def unhandled(self) -> bool:
@@ -141,7 +141,22 @@ class Obs:
             or 'This is a Meson bug and should be reported' in t or self.rc not in (0, 1)
 
 
+class _CpuBudget(BaseException):
+    """raised by SIGPROF inside the real tool when one in-process run burns more CPU than any generated program
+    can need (the reference evaluator bounds every program to 20000 steps); BaseException so that meson's own
+    `except Exception` handlers do not swallow it"""
+
+
+def _on_sigprof(signum: int, frame: T.Any) -> None:
+    raise _CpuBudget()
+
+
+CPU_BUDGET_S = 5.0
+
+
 def run_real(files: T.Dict[str, str], workdir: str, sub: bool) -> Obs:
+    import signal
+    import subprocess
     from harness import mesondrv as M
     src = os.path.join(workdir, 'p')
     shutil.rmtree(src, ignore_errors=True)
@@ -149,14 +164,24 @@ def run_real(files: T.Dict[str, str], workdir: str, sub: bool) -> Obs:
     args = ['setup', '--backend=none', os.path.join(src, 'b'), src]
     try:
         if sub:
-            r = M.run_sub(args, cwd=workdir)
+            try:
+                r = M.run_sub(args, cwd=workdir, timeout=600)
+            except subprocess.TimeoutExpired:
+                return Obs(-9, '', '', hang=True)
         else:
+            old = signal.signal(signal.SIGPROF, _on_sigprof)
+            signal.setitimer(signal.ITIMER_PROF, CPU_BUDGET_S)
             try:
                 r = M.run_inproc(args, cwd=workdir)
+            except _CpuBudget:
+                return Obs(-9, '', '', hang=True)
             except BaseException as e:   # noqa: B902 - e.g. BreakRequest derives from BaseException and escapes mesonmain.run
                 if isinstance(e, (KeyboardInterrupt, MemoryError)):
                     raise
                 return Obs(2, '', '', escaped=f'{type(e).__name__}: {e}')
+            finally:
+                signal.setitimer(signal.ITIMER_PROF, 0)
+                signal.signal(signal.SIGPROF, old)
         return Obs(r.rc, r.out, r.err)
     finally:
         shutil.rmtree(src, ignore_errors=True)
@@ -343,6 +368,10 @@ def judge(case: dict, workdir: str, ev: Evidence, record: bool = True, always_co
         if o.kind == 'error':
             ev.event('error-kind:' + o.error_kind)
     ob = run_real(texts, workdir, sub=sub_first)
+    if ob.hang:
+        # no time-based verdicts: a run that exhausts the CPU budget is counted as inconclusive, never as a violation
+        ev.event('inconclusive:real-run-exceeded-cpu-budget')
+        return None
     d = compare(ref, ob)
     if d is None:
         return None
@@ -354,6 +383,9 @@ def judge(case: dict, workdir: str, ev: Evidence, record: bool = True, always_co
         ob2, d2 = ob, d
     else:
         ob2 = run_real(texts, workdir, sub=True)
+        if ob2.hang:
+            ev.event('inconclusive:real-run-exceeded-cpu-budget')
+            return None
         d2 = compare(ref, ob2)
         if d2 is None:
             ev.inproc_only += 1
@@ -424,6 +456,51 @@ def run_probe(p: dict, workdir: str, ev: Evidence) -> T.Optional[Failure]:
 # ---------------------------------------------------------------------------------------------------
 # campaign
 
+class _Found(Exception):
+    pass
+
+
+def bounded_campaign(strategy: T.Any, check: T.Callable[[T.Any, bool], T.Optional[Failure]], n: int, seed: int,
+                     fails: T.List[Failure], max_buckets: int = 6, shrink_calls: int = 200) -> None:
+    """core.campaign (collect-then-shrink) with two differences: the shrink pass does not record evidence, and it is
+    bounded by a number of oracle calls per bucket (process-level cases are expensive), after which the smallest
+    failing case found so far is kept."""
+    import hypothesis
+    from hypothesis import given
+    from harness.core import hyp_settings
+    buckets: T.Dict[str, Failure] = {}
+
+    def body(case: T.Any) -> None:
+        f = check(case, True)
+        if f is not None and f.sig not in buckets and len(buckets) < max_buckets:
+            buckets[f.sig] = f
+
+    hypothesis.seed(seed)(hyp_settings(n)(given(strategy)(body)))()
+    for sig, f0 in list(buckets.items()):
+        best = [f0]
+        calls = [0]
+        found_once = [False]
+
+        def body2(case: T.Any, sig: str = sig, best: list = best, calls: list = calls, found_once: list = found_once) -> None:
+            if found_once[0]:
+                calls[0] += 1
+                if calls[0] > shrink_calls:
+                    return
+            f = check(case, False)
+            if f is not None and f.sig == sig:
+                found_once[0] = True
+                best[0] = f
+                raise _Found()
+
+        try:
+            hypothesis.seed(seed)(hyp_settings(n, shrink=True)(given(strategy)(body2)))()
+        except _Found:
+            pass
+        except Exception:
+            pass
+        fails.append(best[0])
+
+
 def _shard(shard: T.Tuple[str, str, int, int, str], ev: Evidence, fails: T.List[Failure]) -> None:
     from harness import refmesongen as G
     kind, name, seed, n, scratch = shard
@@ -433,7 +510,8 @@ def _shard(shard: T.Tuple[str, str, int, int, str], ev: Evidence, fails: T.List[
     sub_first = kind == 'submode'
     try:
         found: T.List[Failure] = []
-        campaign(strat, lambda case: judge(case, workdir, ev, sub_first=sub_first), n, seed, found)
+        bounded_campaign(strat, lambda case, rec: judge(case, workdir, ev, record=rec, sub_first=sub_first), n, seed, found,
+                         shrink_calls=150 if n < 1000 else 400)
         scratch_ev = Evidence()
         for f in found:
             f2 = judge(f.case, workdir, scratch_ev, record=False, always_confirm=True)
